@@ -34,9 +34,9 @@ def check(run, F, tier):
             continue
         da = {}
         db = {}
-        for k, items, p in a:
+        for k, items, p, _raw in a:
             da.setdefault(k, set()).add(tuple(items))
-        for k, items, p in b:
+        for k, items, p, _raw in b:
             db.setdefault(k, set()).add(tuple(items))
         bad = None
         # guard valuations must coincide (a guard tested by one only shows up as an unmatched key)
